@@ -105,8 +105,7 @@ func (fr *Frame) collectMods(nodes []ast.Node, declaredInside map[*types.Var]boo
 					markLhs(s.Value)
 				}
 			case *ast.SendStmt:
-				x.u.regHeap("chan.nsent", "(Array Int Int)")
-				ms.heapKeys["chan.nsent"] = true
+				ms.heapKeys[x.nsentKey(x.chanElemSort(fr.typeOf(s.Chan)))] = true
 				if ct, ok := fr.typeOf(s.Chan).Underlying().(*types.Chan); ok {
 					key := "chan.last." + sortId(x.u.sortOf(ct.Elem()))
 					x.u.regHeap(key, "(Array Int "+x.u.sortOf(ct.Elem())+")")
@@ -173,8 +172,7 @@ func (fr *Frame) callMods(c *ast.CallExpr, ms *modSet, markLhs func(ast.Expr)) {
 					ms.heapKeys[val] = true
 				}
 				if _, ok := fr.typeOf(c.Args[0]).Underlying().(*types.Chan); ok {
-					x.u.regHeap("chan.nsent", "(Array Int Int)")
-					ms.heapKeys["chan.nsent"] = true
+					ms.heapKeys[x.nsentKey(x.chanElemSort(fr.typeOf(c.Args[0])))] = true
 				}
 			case "new":
 				t := fr.typeOf(c.Args[0])
@@ -244,6 +242,10 @@ func (fr *Frame) callMods(c *ast.CallExpr, ms *modSet, markLhs func(ast.Expr)) {
 
 func (fr *Frame) havocMods(st *State, ms *modSet) {
 	x := fr.x
+	// the ghost clock at a loop head is any value not before the clock at loop entry
+	if _, ok := st.ghost["now"]; ok || true {
+		x.clockRead(st)
+	}
 	for o := range ms.vars {
 		if cur, ok := st.vars[o]; ok {
 			nv := x.havocVal(o.Name(), o.Type())
